@@ -20,7 +20,8 @@ import (
 )
 
 type c08Job struct {
-	Kind    string   `json:"kind"` // gen | random | trunc | mutate | bytes | deep | pinned
+	Kind    string   `json:"kind"`           // gen | random | trunc | mutate | bytes | deep | layout | pinned
+	Wide    bool     `json:"wide,omitempty"` // gen: render the spaced predictions once more with long blank runs between the tokens
 	GenFile string   `json:"gen_file,omitempty"`
 	Shard   int      `json:"shard"`
 	NShards int      `json:"nshards"`
@@ -159,6 +160,8 @@ func init() {
 				c08WorkBytes(&job, out)
 			case "deep":
 				c08WorkDeep(&job, out)
+			case "layout":
+				c08WorkLayout(&job, out)
 			case "pinned":
 				for _, s := range job.Inputs {
 					in, _ := base64.StdEncoding.DecodeString(s)
@@ -219,9 +222,16 @@ func c08WorkGen(job *c08Job, out *c08Out) error {
 		seps := []string{"spaced", "nl"}
 		if p.Tight {
 			seps = []string{"tight"}
+		} else if job.Wide && len(p.Syms) >= 2 {
+			seps = append(seps, "wide")
 		}
 		for _, sep := range seps {
-			in := c08Render(p.Syms, sep)
+			var in string
+			if sep == "wide" { // the same token string laid out with a long run of blanks (spaces, tabs, blank lines, indentation) in every gap
+				in = c08RenderWide(p.Syms, rand.New(rand.NewSource(job.Seed*7919+int64(idx))))
+			} else {
+				in = c08Render(p.Syms, sep)
+			}
 			r := out.run(in, p.Line, len(p.Syms) >= 2)
 			// the prediction is about the token string; it applies to this byte string only if the real
 			// lexer reads exactly that token string back (adjacent tokens may merge: `a` `1` -> `a1`).
@@ -478,6 +488,130 @@ func c08WorkBytes(job *c08Job, out *c08Out) {
 				do(p[:pos] + string([]byte{c}) + p[pos:])
 				if pos < len(p) {
 					do(p[:pos] + string([]byte{c}) + p[pos+1:])
+				}
+			}
+		}
+	}
+}
+
+// ------------------------------------------------------------------ layout: how far apart the tokens are
+//
+// The parser knows positions only as byte offsets (position in the line, distance between the previous token and the lexer,
+// start of the current line); error messages are cut out of the input with them. Every other family puts the tokens next to
+// each other or one blank / one newline apart. Here the tokens of short programs (with and without errors) are moved apart:
+// one gap at a time is filled with n bytes of blanks, blank lines, indentation, comments or one long token, n running over a
+// ladder of sizes around the powers of two plus seeded random sizes.
+
+var c08BlankShapes = []string{"spaces", "tabs", "newlines", "spaces-nl", "nl-spaces", "tab-nl", "crlf", "nl-mixed-indent"}
+
+// c08Filler returns about n bytes (at least 1) of the given shape.
+func c08Filler(shape string, n int) string {
+	n = max(n, 1)
+	switch shape {
+	case "spaces":
+		return strings.Repeat(" ", n)
+	case "tabs":
+		return strings.Repeat("\t", n)
+	case "newlines":
+		return strings.Repeat("\n", n)
+	case "spaces-nl": // trailing blanks, then the line ends
+		return strings.Repeat(" ", n-1) + "\n"
+	case "nl-spaces": // the next token is indented
+		return "\n" + strings.Repeat(" ", n-1)
+	case "tab-nl": // lines holding only indentation
+		return strings.Repeat("\t\n", (n+1)/2)
+	case "crlf":
+		return strings.Repeat("\r\n", (n+1)/2)
+	case "nl-mixed-indent":
+		return strings.Repeat(" \t", n/4) + "\n" + strings.Repeat("\t ", n/4) + "\n"
+	case "block-comment":
+		return " /*" + strings.Repeat("c", n) + "*/ "
+	case "line-comment":
+		return " //" + strings.Repeat("c", n) + "\n"
+	case "block-comment-lines":
+		return " /*" + strings.Repeat("c\n", (n+1)/2) + "*/ "
+	case "long-ident":
+		return " " + strings.Repeat("a", n) + " "
+	case "long-int":
+		return " " + strings.Repeat("1", n) + " "
+	case "long-string":
+		return " \"" + strings.Repeat("s", n) + "\" "
+	case "long-illegal":
+		return " " + strings.Repeat("@", n) + " "
+	}
+	panic("unknown filler shape " + shape)
+}
+
+// c08RenderWide: the token string with a seeded blank filler (shape and size) in every gap.
+func c08RenderWide(syms []string, rng *rand.Rand) string {
+	var sb strings.Builder
+	for i, n := range syms {
+		sb.WriteString(c08SymByName[n].Text)
+		if n == "lc" {
+			sb.WriteByte('\n')
+		}
+		if i < len(syms)-1 {
+			size := c08LayoutLadder[rng.Intn(len(c08LayoutLadder))]
+			if rng.Intn(2) == 0 {
+				size = 1 + rng.Intn(300)
+			}
+			sb.WriteString(c08Filler(c08BlankShapes[rng.Intn(len(c08BlankShapes))], size))
+		}
+	}
+	return sb.String()
+}
+
+var c08LayoutLadder = []int{1, 2, 3, 7, 8, 9, 15, 16, 17, 31, 32, 33, 63, 64, 65, 66, 100, 127, 128, 129, 200, 255, 256, 257, 511, 512, 513, 1023, 1024, 1025}
+
+// token lists: errors reported for the current token, for the previous token, at the end of the input, continuation requests,
+// and clean programs
+var c08LayoutBases = [][]string{
+	{"x", "=", ")", "y"}, {"@", "y", "=", "1"}, {"a", "=", "1", "]", "b"}, {"(", "a", ",", ",", ")", "=>", "b"}, {"if", "a", "{", "}", "else", "b"},
+	{"f", "(", "1", ",", "2"}, {"a", ".", "1"}, {"[", "1", ",", "]", "]"}, {"{", "a", ":", "}"}, {"func", "(", ",", ")", "{", "}"}, {"return", ";", "x"},
+	{"a", "=", "42", "/* start"}, {"x", "=", "\"abc"}, {"1e+", "a"}, {"x", "=>", "}"}, {"a", "b", "c"}, {"for", "{", "a"}, {"a", "[", "1", ":", "}"},
+	{"len", "(", ")", ")"}, {"macro", "(", "a", "{"}, {"a", "=", "1", "+", "2"}, {"f", "(", "a", ",", "b", ")"}, {"if", "a", "{", "b", "}", "else", "{", "c", "}"},
+	{"func", "f", "(", "a", ")", "{", "return", "a", "}"}, {"[", "1", ",", "2", "]"}, {"{", "\"k\"", ":", "1", "}"}, {"x", "=>", "x", "+", "1"}, {"a", ";", "b"},
+	{"// c\n", "a", ")"}, {"/* c */", "a", "+"},
+}
+
+func c08WorkLayout(job *c08Job, out *c08Out) {
+	rng := rand.New(rand.NewSource(job.Seed*31 + 5))
+	shapes := append(append([]string{}, c08BlankShapes...), "block-comment", "line-comment", "block-comment-lines", "long-ident", "long-int", "long-string", "long-illegal")
+	k := 0
+	for _, base := range c08LayoutBases {
+		for gap := 0; gap <= len(base); gap++ { // before the first token, between two tokens, after the last one
+			for _, shape := range shapes {
+				sizes := append([]int{}, c08LayoutLadder...)
+				if job.N > 0 { // thorough: every size up to N
+					sizes = sizes[:0]
+					for n := 1; n <= job.N; n++ {
+						sizes = append(sizes, n)
+					}
+					sizes = append(sizes, 511, 512, 513, 1023, 1024, 1025, 4095, 4096, 4097)
+				}
+				for r := 0; r < 3; r++ {
+					sizes = append(sizes, 1+rng.Intn(700))
+				}
+				for _, n := range sizes {
+					k++
+					if k%job.NShards != job.Shard {
+						continue
+					}
+					var sb strings.Builder
+					for i, t := range base {
+						if i == gap {
+							sb.WriteString(c08Filler(shape, n))
+						} else if i > 0 {
+							sb.WriteByte(' ')
+						}
+						sb.WriteString(t)
+					}
+					if gap == len(base) {
+						sb.WriteString(c08Filler(shape, n))
+					}
+					in := sb.String()
+					out.run(in, false, true)
+					out.run(in, true, true)
 				}
 			}
 		}
